@@ -179,7 +179,11 @@ impl<T: Copy> ReadStream<T> {
 
     #[must_use]
     pub fn wait_for_read(&self, need: usize) -> bool {
-        self.circ.wait_for_read(need) < need && Arc::strong_count(&self.circ) == 1
+        // Check for the writer being gone *before* looking at the amount of
+        // data: a writer that commits its last samples and goes away in
+        // between must not make us declare that data unreachable.
+        let closed = Arc::strong_count(&self.circ) == 1;
+        self.circ.wait_for_read(need) < need && closed
     }
 
     /// Return true if there is nothing more ever to read from the stream.
@@ -252,7 +256,9 @@ impl<T: Copy> WriteStream<T> {
 
     #[must_use]
     pub fn wait_for_write(&self, need: usize) -> bool {
-        self.circ.wait_for_write(need) < need && Arc::strong_count(&self.circ) == 1
+        // Same order as in `ReadStream::wait_for_read`: liveness first.
+        let closed = Arc::strong_count(&self.circ) == 1;
+        self.circ.wait_for_write(need) < need && closed
     }
 
     #[must_use]
@@ -286,6 +292,8 @@ pub struct NCReadStream<T> {
 impl<T> StreamWait for NCReadStream<T> {
     fn wait(&self, need: usize) -> bool {
         let (lock, cv) = &*self.q;
+        // Liveness first, see `ReadStream::wait_for_read`.
+        let closed = Arc::strong_count(&self.q) == 1;
         let l = cv
             .wait_timeout_while(
                 lock.lock().unwrap(),
@@ -293,7 +301,7 @@ impl<T> StreamWait for NCReadStream<T> {
                 |s| s.len() < need,
             )
             .unwrap();
-        l.0.len() < need && Arc::strong_count(&self.q) == 1
+        l.0.len() < need && closed
     }
     fn closed(&self) -> bool {
         Arc::strong_count(&self.q) == 1
